@@ -247,3 +247,52 @@ def local_uses(fn, l):
             if t['cond'].get('o') in ('copy', 'move') and t['cond']['pl']['l'] == l:
                 uses.append((bi, 'assert', t))
     return uses
+
+
+def _iter_item(it):
+    """abstract item of an iterator expression: ('elem', collection) | ('tuple', a, b) | ('enum', item) | None"""
+    it = strip_refs(it)
+    if it[0] != 'call':
+        return None
+    s = short(it[1])
+    if s in ('into_iter', 'by_ref', 'rev', 'skip', 'take', 'peekable', 'fuse', 'copied', 'cloned', 'filter'):
+        inner = _iter_item(it[2][0])
+        return inner if inner is not None else ('elem', strip_refs(it[2][0]))
+    if s in ('iter', 'iter_mut', 'into_floats_mut', 'par_iter_mut', 'par_iter', 'drain', 'values', 'keys'):
+        return ('elem', strip_refs(it[2][0]))
+    if s == 'zip' and len(it[2]) == 2:
+        return ('tuple', _iter_item(it[2][0]), _iter_item(it[2][1]))
+    if s == 'enumerate':
+        return ('tuple', ('index',), _iter_item(it[2][0]))
+    return None
+
+
+def elem_of(e):
+    """if e denotes (a component of) the current item of a for-loop over iterator chains, return
+    the collection it is an element of; else None"""
+    e = strip_refs(e)
+    path = []
+    while e[0] == 'field':
+        path.append(e[2])
+        e = strip_refs(e[1])
+    if e[0] == 'downcast' and e[2] == 'Some' and is_call(strip_refs(e[1]), 'next'):
+        it = strip_refs(e[1])[2][0]
+        item = _iter_item(it)
+        path = list(reversed(path))
+        if not path or path[0] != '0':
+            return None
+        for k in path[1:]:
+            if item is None or item[0] != 'tuple' or not k.isdigit() or int(k) + 1 >= len(item):
+                return None
+            item = item[int(k) + 1]
+        if item is not None and item[0] == 'elem':
+            return item[1]
+    return None
+
+
+def coll_fields(e):
+    """identifier field names of the collection an element expression belongs to"""
+    c = elem_of(e)
+    if c is None:
+        return []
+    return [x[2] for x in walk(c) if x[0] == 'field' and not x[2].isdigit() and x[2] != 'pointer']
